@@ -4,6 +4,7 @@
 From Coq Require Import List Arith NArith ZArith Lia Bool.
 Import ListNotations.
 Require Import Codec Codec2.
+Require Import FileReader AddFileDyn W_C15 FileReaderPrefix AddFileStable.
 Local Open Scope N_scope.
 
 (* one line per item, "status hash device:inode:mtime_ns size path\n": every well-formed item (byte-valued hash,
@@ -37,6 +38,25 @@ Proof.
   constructor; cbn; try reflexivity; try lia; try (split; reflexivity); repeat constructor.
 Qed.
 
+(* a file that does not change while it is read (both read passes deliver the same content c before their first end-of-file, with any
+   short reads, and the declared size is its length) gets a truthful record: size = |c|, hash = H c, and a unique entry is exactly c *)
+Theorem C10_stable_file_truthful : forall (hash : Type) (Hh : list N -> hash) (known : hash -> bool) (EMPTY : hash) sizes1 sizes2 sc1 sc2 c,
+  before_eof sc1 = c -> before_eof sc2 = c ->
+  match add_file (list sitem) srd (fun _ => sc2) (bz_of sizes1) (bz_of sizes2) hash Hh known EMPTY sc1 (length c) None with
+  | Unique _ h size entry => c <> [] /\ h = Hh c /\ size = length c /\ entry = c
+  | Extern _ h size => (c = [] /\ h = EMPTY /\ size = 0%nat) \/ (c <> [] /\ h = Hh c /\ size = length c /\ known h = true)
+  | Abort _ => True
+  end.
+Proof. exact stable_file_truthful. Qed.
+Check C10_stable_file_truthful : forall (hash : Type) (Hh : list N -> hash) (known : hash -> bool) (EMPTY : hash) sizes1 sizes2 sc1 sc2 c,
+  before_eof sc1 = c -> before_eof sc2 = c ->
+  match add_file (list sitem) srd (fun _ => sc2) (bz_of sizes1) (bz_of sizes2) hash Hh known EMPTY sc1 (length c) None with
+  | Unique _ h size entry => c <> [] /\ h = Hh c /\ size = length c /\ entry = c
+  | Extern _ h size => (c = [] /\ h = EMPTY /\ size = 0%nat) \/ (c <> [] /\ h = Hh c /\ size = length c /\ known h = true)
+  | Abort _ => True
+  end.
+
 Print Assumptions C10_decode_encode.
 Print Assumptions C10_decode_encode_lines.
 Print Assumptions C10_encode_injective.
+Print Assumptions C10_stable_file_truthful.
